@@ -410,8 +410,57 @@ def check_nocoarse_transfer(tier, seed):
     return _pack('TransferMesh_NoCoarse / TransferParticles_NoCoarse', obs, 'identity transfers return equal copies of the same type', 'mesh, imex_mesh, particles, fields, acceleration')
 
 
+# ------------------------------------------------------------------------------------------------ lemma: monomials / modes -> all polynomials / band-limited data
+def lemma_closure_by_linearity(tier, seed):
+    r"""The evaluation checks decide, row by row, that a transfer matrix reproduces MONOMIALS (sum_j w_j x_j^k = y^k, k < n) or single
+    MODES (sum_j w_j e_k(x_j) = g_k e_k(y)).  The property speaks of all polynomials below the order / all band-limited data.  The step between
+    the two, with n symbolic weights w_j, source points x_j, target point y and coefficients a_k (nothing concrete but n):
+      (ring)  sum_j w_j p(x_j) == sum_k a_k M_k,   M_k = sum_j w_j b_k(x_j)    for ANY basis functions b_k (uninterpreted values B[k][j])
+      (z3)    M_k == T_k for all k < n  ==>  sum_k a_k M_k == sum_k a_k T_k    (T_k = y^k, or the mode's value times its gain)
+      (z3)    allowance version, as in C18: |a| <= B, |M - T| <= e ==> |a (M - T)| <= B e; |r_k| <= t_k ==> |sum r_k| <= sum t_k."""
+    import z3
+    from vc.discharge import Obligation, discharge
+
+    obs = []
+    nmax = 8 if tier == 'quick' else 12
+    for n in range(1, nmax + 1):
+        w = [z3.Real(f'w{j}') for j in range(n)]
+        a = [z3.Real(f'a{k}') for k in range(n)]
+        Bv = [[z3.Real(f'b{k}_{j}') for j in range(n)] for k in range(n)]  # b_k(x_j): monomial, Lagrange, Fourier real / imaginary part ...
+        lhs = z3.Sum([w[j] * z3.Sum([a[k] * Bv[k][j] for k in range(n)]) for j in range(n)])
+        rhs = z3.Sum([a[k] * z3.Sum([w[j] * Bv[k][j] for j in range(n)]) for k in range(n)])
+        obs.append(Obligation(f'closure[n={n}]:row_applied_to_combination_is_combination_of_rows_applied_to_basis', [], lhs == rhs, 'lemma'))
+        m = [z3.Real(f'M{k}') for k in range(n)]
+        T = [z3.Real(f'T{k}') for k in range(n)]
+        obs.append(Obligation(f'closure[n={n}]:exact_on_basis_implies_exact_on_span', [m[k] == T[k] for k in range(n)],
+                              z3.Sum([a[k] * m[k] for k in range(n)]) == z3.Sum([a[k] * T[k] for k in range(n)]), 'lemma'))
+        obs.append(Obligation(f'closure[n={n}]:error_is_sum_of_coefficient_times_basis_residual', [],
+                              z3.Sum([a[k] * m[k] for k in range(n)]) - z3.Sum([a[k] * T[k] for k in range(n)]) == z3.Sum([a[k] * (m[k] - T[k]) for k in range(n)]), 'lemma'))
+        r = [z3.Real(f'r{k}') for k in range(n)]
+        t = [z3.Real(f't{k}') for k in range(n)]
+        pc = []
+        for k in range(n):
+            pc += [r[k] <= t[k], -r[k] <= t[k]]
+        obs.append(Obligation(f'closure[n={n}]:sum_of_bounded_terms_is_bounded_by_sum_of_bounds', pc, z3.And(z3.Sum(r) <= z3.Sum(t), -z3.Sum(r) <= z3.Sum(t)), 'lemma'))
+    x, y, B, e = z3.Reals('x y B e')
+    obs.append(Obligation('closure:one_term:|a|<=B,|M-T|<=e_imply_|a(M-T)|<=B*e', [x <= B, -x <= B, y <= e, -y <= e], z3.And(x * y <= B * e, -(x * y) <= B * e), 'lemma'))
+    # canary: exactness on n-1 basis functions says nothing about the n-th
+    a = [z3.Real(f'a{k}') for k in range(3)]
+    m = [z3.Real(f'M{k}') for k in range(3)]
+    T = [z3.Real(f'T{k}') for k in range(3)]
+    can = discharge(Obligation('canary:closure_reaches_one_basis_function_more', [m[0] == T[0], m[1] == T[1]],
+                               z3.Sum([a[k] * m[k] for k in range(3)]) == z3.Sum([a[k] * T[k] for k in range(3)]), 'lemma')).as_dict()
+    res = []
+    for ob in obs:
+        d = discharge(ob).as_dict()
+        d['path'] = 0
+        res.append(d)
+    return dict(contract='lemma:closure_by_linearity', prop='C11', inst={}, label='proved', kind='lemma', obligations=res,
+                canaries=[dict(name=can['name'], refuted=can['status'] == 'refuted')], paths=1, status='ok')
+
+
 CONTRACTS = []
-EXTRAS = [check_time_transfer, check_space_1d, check_mesh_to_mesh, check_fft_transfer, check_fft2d_transfer, check_nocoarse_transfer]
+EXTRAS = [lemma_closure_by_linearity, check_time_transfer, check_space_1d, check_mesh_to_mesh, check_fft_transfer, check_fft2d_transfer, check_nocoarse_transfer]
 ASSUMPTIONS = ['qmat.LagrangeApproximation / scipy BarycentricInterpolator / numpy.fft are external: their output is what is checked (exact rational evaluation, allowance 1e-9..1e-10)',
-               'closure from monomials / single modes to all polynomials / band-limited functions by linearity']
+               'closure from monomials / single modes to all polynomials / band-limited functions: machine-checked per row for up to 8 (quick) / 12 (thorough) basis functions by lemma:closure_by_linearity; that a d-dimensional transfer is the Kronecker product of 1-D ones is the evaluated Kronecker clause']
 UNDECIDED = ['MPIFFT transfer classes (mpi4py-fft absent)', 'mesh_to_mesh_fft2d with refinement ratios other than 2 (outside the stated range; the scaling factor ratio*2 is only right for ratio 2)', 'grid sizes beyond the enumerated ones']
